@@ -1,7 +1,10 @@
 #!/bin/bash
 # usage: run_many.sh <tier> <first-seed> <last-seed> [parallel]  -> one line per (check, seed); VIOLATION / INFRA lines shown
 TIER=$1; A=$2; B=$3; P=${4:-4}
-cd /verif
+cd "$(dirname "$(readlink -f "$0")")"
+mkdir -p .cache
+LOG=.cache/multiseed_${TIER}_${A}_${B}.log
+: > $LOG
 checks=$(python3 -c "import json; print(' '.join(x['property_id'] for x in json.load(open('MANIFEST.json'))['checks']))")
 one() {
   s=$1; c=$2; TIER=$3
@@ -10,4 +13,4 @@ one() {
   echo "$out" | grep "^VIOLATION\|^INFRA" | head -3
 }
 export -f one
-for s in $(seq $A $B); do for c in $checks; do echo "$s $c $TIER"; done; done | xargs -P $P -L 1 bash -c 'one $0 $1 $2'
+for s in $(seq $A $B); do for c in $checks; do echo "$s $c $TIER"; done; done | xargs -P $P -L 1 bash -c 'one $0 $1 $2' | tee -a $LOG
